@@ -5,9 +5,9 @@ From Verif Require Import GoSem Timeline TimelineF.
 Record tlcase := {
   c_id : Z;
   k_img : bool;     (* thumbnail: only status and source are observable *)
-  k_edge : bool;    (* the instant is within 2 ms of a transition with a finite non-zero availabilityTimeOffset,
-                       or of the gone edge: float64 rounding may move the decision by 1 ms there, so the
-                       exact model is not compared with the float model on this case *)
+  k_edge : bool;    (* the instant is within 2 ms of a transition that is not on the millisecond grid: the
+                       microsecond rounding of the float64 code may differ from the exact test by < 1 us
+                       there, so the exact model is not compared with the float model on this case *)
   k_rep : rep; k_loopMS : Z; k_cfg : tcfg; k_mode : addressing; k_segID : Z; k_now : Z;
   o_status : Z;     (* 200 425 410 404 500, 0 = panic *)
   o_ms : Z;         (* "too early by <ms>ms" *)
